@@ -226,7 +226,7 @@ def handoff_bounds(cx):
         lo, hi = args[1], args[2]
         mx = as_max(lo)
         ok_lo = mx is not None and any(x[0] == "bin" and x[1] == "Add" and ("int", 1) in x[2:] and any(y[0] == "param" for y in x[2:]) for x in mx) and any(x[0] == "call" and x[1].endswith("RaftLog::first_index") for x in mx)
-        ok_hi = bool(match(("bin", "Add", alt(call("~RaftLog::applied_index_upper_bound", ANY), ("int", 1)), alt(call("~RaftLog::applied_index_upper_bound", ANY), ("int", 1))), hi)) and hi[2] != hi[3]
+        ok_hi = bool(match(("bin", "Add", alt(call(cx.sfx("RaftLog::applied_index_upper_bound"), ANY), ("int", 1)), alt(call(cx.sfx("RaftLog::applied_index_upper_bound"), ANY), ("int", 1))), hi)) and hi[2] != hi[3]
         cx.check(ok_lo, "lo", "entries are handed out from max(since + 1, first_index()) (found %s)" % show(lo), c)
         cx.check(ok_hi, "hi", "entries are handed out up to applied_index_upper_bound() + 1 (found %s)" % show(hi), c)
         cx.check(args[3][0] == "param", "max", "the size limit given to next_entries_since is passed on to slice", c)
